@@ -194,7 +194,8 @@ class FakeTime:
 @st.composite
 def rotate_case(draw):
     ndated = draw(st.integers(0, 9))
-    ages = draw(st.lists(st.integers(1, 40), min_size=ndated, max_size=ndated, unique=True))
+    # days before the start day; negative: dated in the future (wrong clock, copied files)
+    ages = draw(st.lists(st.one_of(st.integers(1, 40), st.integers(1, 40), st.integers(-6, -1)), min_size=ndated, max_size=ndated, unique=True))
     foreign = draw(st.lists(st.sampled_from(['notes.txt', 'zz-last.log', 'aa-first.log', 'root-backup.tar', 'root.log', 'archive/', '0000', 'root-old/',
                                              'other-2020-01-01.log']), max_size=3, unique=True))
     return {'kind': 'rotate', 'ages': sorted(ages), 'foreign': foreign, 'max_days': draw(st.integers(0, 5)),
@@ -250,7 +251,11 @@ def check_rotate(ctx, case):
             dated_after = sorted(x for x in os.listdir(d) if x.startswith('root-') and x.endswith('.log') and len(x) == len(fname(day0)))
             other_after = sorted(set(os.listdir(d)) - set(dated_after) - {'current'})
             allfiles = sorted(set(dated_before) | {fname(today)})
-            want = allfiles if n == 0 else allfiles[-n:]
+            earlier = [x for x in allfiles if x < fname(today)]
+            future = [x for x in allfiles if x > fname(today)]       # not "older": never to be removed
+            if future:
+                ctx.label('rotate:future-dated-files')
+            want = allfiles if n == 0 else (earlier[-(n - 1):] if n > 1 else []) + [fname(today)] + future
             if other_after != other_before:
                 ctx.finding('rollover:foreign-entry-removed', sub, f'{sorted(set(other_before) - set(other_after))!r} removed')
             if fname(today) not in dated_after:
